@@ -4,6 +4,8 @@ import PynnVerif.Driver.Descent
 import PynnVerif.Driver.Sparse
 import PynnVerif.Driver.Index
 import PynnVerif.Driver.Alias
+import PynnVerif.Driver.Transformer
+import PynnVerif.Driver.RPTree
 /-!
 # Line-protocol driver over the executable model
 
@@ -24,7 +26,7 @@ structure St where
   row : Row F := #[]
 
 /-- stateless area handlers (first one that answers wins) -/
-def handlers : List Handler := [handleDescent, handleSparse, handleIndex, handleAlias]
+def handlers : List Handler := [handleDescent, handleSparse, handleIndex, handleAlias, handleTransformer, handleRPTree]
 
 def step (st : St) (line : String) : St × String :=
   let toks := (line.trimAscii.toString.splitOn " ").filter (· ≠ "")
